@@ -289,7 +289,7 @@ def resolve(world, op):
             n = m
         ref = cs if cs["t"] == "arr2" else cd
         shape, vspecs = vsel_layout(op["vols"], ref, n)
-        if shape == "arr2" and ref["t"] != "arr2":
+        if shape == "arr2" and (ref["t"] != "arr2" or len(ref["ids"]) * len(ref["ids"][0]) != n):
             shape = "list"
         srun, drun = _running(world, si), _running(world, di)
         if si == di:
@@ -637,3 +637,87 @@ def model_resync(world):
             if new != m.vol[idx]:
                 m.vol[idx] = new
                 m.comp[idx] = None
+
+
+# ---------------------------------------------------------------------------------------------
+# operation strategies
+# ---------------------------------------------------------------------------------------------
+def vs_mixed(q=0.01):
+    ok = vs_ok(q)
+    return st.one_of(ok, ok, ok, vs_bad())
+
+
+def op_direct(vs, kinds=("add", "remove", "aspirate", "dispense"), comps=False, max_n=6, labels=label_st):
+    d = {
+        "op": st.sampled_from(list(kinds)),
+        "lw": st.integers(0, 2),
+        "wells": wsel(max_n=max_n),
+        "vols": vsel(vs, max_n=max_n),
+        "label": labels,
+    }
+    if comps:
+        d["comps"] = st.one_of(st.none(), st.integers(1, 5))
+    return st.fixed_dictionaries(d)
+
+
+def op_transfer(vs, max_n=6, labels=label_st, kw=st.just({})):
+    return st.fixed_dictionaries(
+        {
+            "op": st.just("transfer"),
+            "src": st.integers(0, 2),
+            "dst": st.integers(0, 2),
+            "sw": wsel(max_n=max_n),
+            "dw": wsel(max_n=max_n),
+            "vols": vsel(vs, max_n=max_n),
+            "wash": st.sampled_from(WASHES),
+            "pb": st.sampled_from(["auto", "source", "destination"]),
+            "label": labels,
+            "fail_side": st.sampled_from(["src", "dst"]),
+            "kw": kw,
+        }
+    )
+
+
+def op_distribute(vs, max_n=6, labels=label_st):
+    return st.fixed_dictionaries(
+        {
+            "op": st.just("distribute"),
+            "src": st.integers(0, 2),
+            "col": st.integers(0, 5),
+            "dst": st.integers(0, 2),
+            "dw": wsel(max_n=max_n),
+            "vol": vs,
+            "label": labels,
+            "fail_side": st.sampled_from(["src", "dst"]),
+            "kw": st.fixed_dictionaries({}, optional={"multi_disp": st.integers(1, 12), "diti_reuse": st.integers(1, 4), "liquid_class": st.sampled_from(["", "Water free"]), "direction": st.sampled_from(["left_to_right", "right_to_left"])}),
+        }
+    )
+
+
+def op_evo(vs, labels=label_st):
+    return st.fixed_dictionaries(
+        {
+            "op": st.sampled_from(["evo_aspirate", "evo_dispense"]),
+            "lw": st.integers(0, 2),
+            "col": st.integers(0, 11),
+            "rows": st.lists(st.integers(0, 15), min_size=1, max_size=4),
+            "tips": st.lists(st.integers(1, 8), min_size=1, max_size=4),
+            "vols": st.one_of(vs, st.lists(vs, min_size=1, max_size=4)),
+            "lc": st.sampled_from(["Water", "LC 2"]),
+            "arm": st.sampled_from([0, 0, 1]),
+            "label": labels,
+        }
+    )
+
+
+def op_misc():
+    return st.one_of(
+        st.fixed_dictionaries({"op": st.just("comment"), "text": st.sampled_from(["hello", "two\nlines", "µL step", ""])}),
+        st.fixed_dictionaries({"op": st.just("wash"), "scheme": st.integers(1, 4)}),
+        st.just({"op": "flush"}),
+        st.just({"op": "commit"}),
+    )
+
+
+def trough_indices(specs):
+    return [i for i, s in enumerate(specs) if s["kind"] == "trough"]
